@@ -88,8 +88,10 @@ func (s *service) Handle(ctx context.Context, conn net.Conn) error {
 
 	body := make([]byte, 1024)
 
-	n, err := req.Body.Read(body)
-	if err == io.EOF {
+	// the first 1024 bytes of the body, however many reads they take to
+	// arrive (a single Read returns what one segment happened to carry)
+	n, err := io.ReadFull(req.Body, body)
+	if err == io.EOF || err == io.ErrUnexpectedEOF {
 	} else if err != nil {
 		return err
 	}
